@@ -98,6 +98,25 @@ def expand_paths(paths):
                 earlier.append(g)
         else:
             split.append((guards, val))
+    # ... and a value with a conditional expression *inside* it (`log_p = a if t else b` followed by `log_p -= c`) is
+    # one path per arm as well
+    from ..formula import atoms_of as _atoms_of
+    from ..termflow import subst as _subst
+
+    work, split = split, []
+    while work:
+        guards, val = work.pop(0)
+        conds = [c for c in _atoms_of(val, tag="cond") if all(_ipk(k) for _, k in c[1])] if isinstance(val, Poly) else []
+        if not conds or len(work) + len(split) > 64:
+            split.append((guards, val))
+            continue
+        c = conds[0]
+        ck = Poly.atom(c).key()
+        earlier = []
+        for g, k in c[1]:
+            extra = [g_not_(x) for x in earlier] + ([g] if g != _T else [])
+            work.append((list(guards) + extra, _subst(val, {ck: _pfk(k)})))
+            earlier.append(g)
     paths = split
     out = []
     for guards, val in paths:
